@@ -107,7 +107,22 @@ var Globals = map[string]cty.Value{
 	"mn2": cty.MapVal(map[string]cty.Value{"k1": cty.NullVal(cty.String), "k2": str("v2")}),
 	// erroneous for_each operands
 	"nl": cty.NullVal(cty.List(cty.String)),
+	// collections with two different marks A and B (family nest-marks): what is
+	// generated from one must not pick up the marks of the other
+	"qa2":  cty.ListVal([]cty.Value{str("a"), str("b")}).Mark(markA),
+	"qb1":  cty.ListVal([]cty.Value{str("c")}).Mark(markB),
+	"qab2": cty.ListVal([]cty.Value{str("d"), str("e")}).WithMarks(cty.NewValueMarks(markA, markB)),
+	"qua":  cty.UnknownVal(cty.List(cty.String)).Mark(markA),
+	"qeb":  cty.ListValEmpty(cty.String).Mark(markB),
+	"qmb2": cty.MapVal(map[string]cty.Value{"k1": str("v1"), "k2": str("v2")}).Mark(markB),
+	"qoa2": cty.ListVal([]cty.Value{kid("p", "c1"), kid("q", "c2", "c3")}).Mark(markA),
+	"qob2": cty.ListVal([]cty.Value{kid("p", "c1"), cty.ObjectVal(map[string]cty.Value{"attr": str("q"), "kids": cty.ListVal([]cty.Value{str("c2")}).Mark(markB)})}),
 }
+
+const (
+	markA = "A"
+	markB = "B"
+)
 
 // altGlobals is a second context with the same variable names and different
 // values (used to show that expansion keeps no state in the body).
@@ -606,7 +621,113 @@ func gen(tier string, emit func(engine.Case) bool) {
 	}
 
 	// Family D - three levels of nesting, iterator names re-used across levels
-	genNest3(thorough, out)
+	if !genNest3(thorough, out) {
+		return
+	}
+
+	// Family E - two levels, every combination of for_each kinds (known, empty, unknown, marks A / B / A+B)
+	genNestMarks(thorough, out)
+}
+
+// nestMarksSpec: object{top, x: Kx{a, z: Kz{b}, s: block{c, z: Kz{b}}, t: block{d}}, y: list{a}}.
+func nestMarksSpec(xk, zk string) *sg.Spec {
+	zs := func() *sg.Spec { return blockSpecOf(zk, "z", objSpec("b", attrSpec("b", sg.TDynamic))) }
+	ss := &sg.Spec{K: sg.KBlock, Name: "s", Kids: []*sg.Spec{objSpec("c", attrSpec("c", sg.TDynamic), "z", zs())}}
+	ts := &sg.Spec{K: sg.KBlock, Name: "t", Kids: []*sg.Spec{objSpec("d", attrSpec("d", sg.TString))}}
+	xs := blockSpecOf(xk, "x", objSpec("a", attrSpec("a", sg.TDynamic), "z", zs(), "s", ss, "t", ts))
+	return objSpec("top", attrSpec("top", sg.TString), "x", xs,
+		"y", blockSpecOf("list", "y", objSpec("a", attrSpec("a", sg.TDynamic))))
+}
+
+// nestMarksBody: top = g; dynamic x over outer { a; [dynamic z over inner]; [static z]; [s { c; dynamic z over inner }]; t { d } }; y { a = g }.
+// placement: direct (the nested dynamic block sits in the content), in-static
+// (inside the static child block s of the content), both.
+func nestMarksBody(outer, inner, placement, oexpr, iexpr string, staticZ bool) *sg.Body {
+	ie := map[string]sg.Expr{
+		"const": sg.S("ic"),
+		"value": sg.R("z", "value"),
+		"tmpl":  sg.T(sg.R("x", "key"), sg.S("-"), sg.R("z", "value")),
+	}[iexpr]
+	oe := map[string]sg.Expr{
+		"const":  sg.S("oc"),
+		"value":  sg.R("x", "value"),
+		"global": sg.R("h"),
+	}[oexpr]
+	fe := sg.R(inner)
+	if inner == "outer-kids" {
+		fe = sg.R("x", "value", "kids")
+		if oexpr == "value" {
+			oe = sg.R("x", "value", "attr")
+		}
+	}
+	dz := func() sg.Block {
+		return sg.Block{Type: "z", Dyn: &sg.Dyn{ForEach: fe}, Body: &sg.Body{Attrs: []sg.Attr{{Name: "b", Expr: ie}}}}
+	}
+	content := &sg.Body{Attrs: []sg.Attr{{Name: "a", Expr: oe}}}
+	if placement == "direct" || placement == "both" {
+		content.Blocks = append(content.Blocks, dz())
+	}
+	if staticZ {
+		content.Blocks = append(content.Blocks, sg.Block{Type: "z", Body: &sg.Body{Attrs: []sg.Attr{{Name: "b", Expr: sg.S("zs")}}}})
+	}
+	if placement == "in-static" || placement == "both" {
+		content.Blocks = append(content.Blocks, sg.Block{Type: "s", Body: &sg.Body{
+			Attrs: []sg.Attr{{Name: "c", Expr: sg.R("x", "key")}}, Blocks: []sg.Block{dz()}}})
+	}
+	content.Blocks = append(content.Blocks, sg.Block{Type: "t", Body: &sg.Body{Attrs: []sg.Attr{{Name: "d", Expr: sg.S("tail")}}}})
+	return &sg.Body{
+		Attrs: []sg.Attr{{Name: "top", Expr: sg.R("g")}},
+		Blocks: []sg.Block{
+			{Type: "x", Dyn: &sg.Dyn{ForEach: sg.R(outer)}, Body: content},
+			staticY(),
+		},
+	}
+}
+
+// genNestMarks: family E - two nesting levels with an independent choice of
+// the kind of for_each value per level.
+func genNestMarks(thorough bool, out func(fam, syn string, spec *sg.Spec, body *sg.Body) bool) bool {
+	// known (1, 2 elements), empty, unknown, marked A, marked B, marked A and B, unknown marked A, empty marked B
+	kinds := []string{"l1", "l2", "l0", "ul", "qa2", "qb1", "qab2", "qua", "qeb"}
+	outers, inners := kinds, kinds
+	xks := []string{"list", "btuple", "set", "block"}
+	zks := []string{"list", "block", "set"}
+	oexprs := []string{"const", "value"}
+	iexprs := []string{"const", "tmpl"}
+	if thorough {
+		outers = append(append([]string{}, kinds...), "m2", "qmb2", "ud", "lo2", "qoa2", "qob2")
+		inners = append(append([]string{}, kinds...), "m2", "qmb2", "ud", "outer-kids")
+		zks = []string{"list", "block", "set", "btuple", "attrs"}
+		oexprs = []string{"const", "value", "global"}
+		iexprs = []string{"const", "value", "tmpl"}
+	}
+	for _, placement := range []string{"direct", "in-static", "both"} {
+		for _, outer := range outers {
+			for _, inner := range inners {
+				if inner == "outer-kids" && outer != "lo2" && outer != "qoa2" && outer != "qob2" {
+					continue
+				}
+				for _, oe := range oexprs {
+					for _, ie := range iexprs {
+						for _, xk := range xks {
+							for _, zk := range zks {
+								// a static sibling of the generated z blocks where the spec admits several
+								staticZ := zk != "block" && zk != "attrs"
+								spec := nestMarksSpec(xk, zk)
+								body := nestMarksBody(outer, inner, placement, oe, ie, staticZ)
+								for _, syn := range []string{"native", "json"} {
+									if !out("nest-marks", syn, spec, body) {
+										return false
+									}
+								}
+							}
+						}
+					}
+				}
+			}
+		}
+	}
+	return true
 }
 
 // genNest3: family D - three levels of nesting with re-used iterator names.
@@ -884,6 +1005,151 @@ func conforms(got, want cty.Type) bool {
 	return want.HasDynamicTypes() || got.Equals(want)
 }
 
+// markShape names the construct for the mark classes: where the marked
+// collections sit (outer / nested dynamic block) and what the spec kind of x is.
+func markShape(d Data, wo *refdec.WriteOut) string {
+	var levels []string
+	var walk func(b *sg.Body, depth int)
+	walk = func(b *sg.Body, depth int) {
+		if b == nil {
+			return
+		}
+		for i := range b.Blocks {
+			bl := &b.Blocks[i]
+			dd := depth
+			if bl.Dyn != nil {
+				dd++
+				if bl.Dyn.ForEach.K == "ref" {
+					if v, ok := Globals[bl.Dyn.ForEach.Ref[0]]; ok && v.IsMarked() {
+						l := "outer"
+						if depth >= 1 {
+							l = "nested"
+						}
+						have := false
+						for _, x := range levels {
+							have = have || x == l
+						}
+						if !have {
+							levels = append(levels, l)
+						}
+					}
+				}
+			}
+			walk(bl.Body, dd)
+		}
+	}
+	walk(d.Body, 0)
+	sort.Strings(levels)
+	where := strings.Join(levels, "-and-")
+	if where == "" {
+		where = "derived"
+	}
+	sets := "one-mark-set"
+	if len(wo.MarkSets) > 1 {
+		sets = "different-mark-sets"
+	}
+	return xKind(d.Spec) + "." + where + "-collection-marked." + sets
+}
+
+// judgePlaceholder: the clauses about the documented write-out of an unknown for_each.
+func judgePlaceholder(d Data, sh shape, spec hcldec.Spec, impl result, desc func() string) *engine.Outcome {
+	fail := func(class, format string, args ...any) *engine.Outcome {
+		o := engine.Fail(class, format, args...)
+		return &o
+	}
+	wo := refdec.ExpandWith(d.Body, Globals, refdec.Options{Placeholder: true})
+	if wo.Undefined != "" || wo.Unspecified != "" {
+		counters.Add("placeholder_writeouts_undefined", 1)
+		return nil
+	}
+	text := wo.Body.Native()
+	parsed, diags := parse(d, text, "native")
+	if diags.HasErrors() {
+		return fail("c18.harness.writeout", "placeholder write-out does not parse: %s\n%s\n%s", diags.Error(), text, desc())
+	}
+	body, err := newRefBody(parsed, wo)
+	if err != nil {
+		return fail("c18.harness.writeout-alignment", "%v\n%s\n%s", err, text, desc())
+	}
+	vars := map[string]cty.Value{}
+	for k, v := range Globals {
+		vars[k] = v
+	}
+	for k, v := range wo.Vars {
+		vars[k] = v
+	}
+	ref, pm, _ := decode(body, spec, nil, &hcl.EvalContext{Variables: vars}, false)
+	if pm != "" {
+		counters.Add("writeout_decode_panics", 1)
+		return nil
+	}
+	nesting := "no-nested-dynamic"
+	if nestedDynamicUnderUnknown(d.Body, Globals, false) {
+		nesting = "nested-dynamic-inside"
+	}
+	cls := func(clause string) string {
+		return "c18.unknown-foreach." + clause + "." + sh.xkind + "." + nesting
+	}
+	if ref.err {
+		// the placeholder itself does not fit the spec (e.g. a second block for a BlockSpec, a label
+		// computed from the unknown key): whether expansion reports that is not specified
+		counters.Add("placeholder_writeouts_erroneous", 1)
+		return nil
+	}
+	if impl.err {
+		return fail(cls("expansion-fails-placeholder-decodes"),
+			"for_each is unknown; Expand+Decode fails: %s\nbut the body with one block per unknown collection (iterator key and value unknown) decodes to %s\nwrite-out:\n%s\n%s",
+			impl.diag, vfmt.V(ref.val), text, desc())
+	}
+	if df := compareDerived(impl.val, ref.val, true); df != nil {
+		return fail(cls(df.kind),
+			"for_each is unknown; at %s the decoded value %s\nExpand+Decode                 = %s\none block per unknown for_each = %s\nwrite-out:\n%s\n%s",
+			df.path, df.msg, vfmt.V(impl.val), vfmt.V(ref.val), text, desc())
+	}
+	// the marks of an unknown collection are somewhere in what it affects
+	for _, ph := range wo.Placeholders {
+		part := impl.val
+		if u, rootMarks := part.Unmark(); u.IsKnown() && !u.IsNull() && u.Type().IsObjectType() && u.Type().HasAttribute(ph.Top) {
+			part = u.GetAttr(ph.Top).WithMarks(rootMarks)
+		}
+		if have := deepMarks(part); !subset(ph.Marks, have) {
+			return fail(cls("missing-marks"),
+				"the unknown for_each collection of a %q block carries %s but the decoded %q only %s: %s\n%s",
+				ph.Top, markNames(ph.Marks), ph.Top, markNames(have), vfmt.V(part), desc())
+		}
+	}
+	counters.Add("placeholder_writeouts_compared", 1)
+	if nesting == "nested-dynamic-inside" {
+		counters.Add("placeholder_writeouts_compared_nested_dynamic", 1)
+	}
+	return nil
+}
+
+// nestedDynamicUnderUnknown: some dynamic block with an unknown for_each
+// (a global) has another dynamic block in its content, directly or inside
+// static blocks.
+func nestedDynamicUnderUnknown(b *sg.Body, env map[string]cty.Value, under bool) bool {
+	if b == nil {
+		return false
+	}
+	for i := range b.Blocks {
+		bl := &b.Blocks[i]
+		u := under
+		if bl.Dyn != nil {
+			if under {
+				return true
+			}
+			if v, ok := refdec.Eval(bl.Dyn.ForEach, env); ok && !v.IsKnown() {
+				u = true
+			}
+		}
+		if nestedDynamicUnderUnknown(bl.Body, env, u) {
+			return true
+		}
+	}
+	return false
+}
+
 func judge(c engine.Case) engine.Outcome {
 	d := c.Data.(Data)
 	if d.Spec == nil || d.Body == nil {
@@ -923,6 +1189,20 @@ func judge(c engine.Case) engine.Outcome {
 		woVars[k] = v
 	}
 	woCtx := &hcl.EvalContext{Variables: woVars}
+	if wo.Unspecified != "" {
+		// e.g. a label that is marked only through an enclosing marked collection:
+		// nothing says whether that is an error
+		counters.Add("unspecified_"+wo.Unspecified, 1)
+		return engine.Skip()
+	}
+	if wo.Marked {
+		// everything inside a block generated from a marked collection derives from it
+		mb, err := newRefBody(woBody, wo)
+		if err != nil {
+			return engine.Fail("c18.harness.writeout-alignment", "%v\n%s\n%s", err, woText, desc())
+		}
+		woBody = mb
+	}
 	ref, pm2, _ := decode(woBody, spec, nil, woCtx, false)
 	if pm2 != "" {
 		// a panic while decoding a purely static body is C08's subject
@@ -986,6 +1266,13 @@ func judge(c engine.Case) engine.Outcome {
 				sig = "unknown:" + sh.Full() + ":" + vfmt.V(iv)
 			}
 		}
+		// The documented write-out of an unknown for_each (README: "a single dynamic block whose
+		// iterator key and value are both unknown values of the dynamic pseudo-type"): the real result
+		// may be less known than its decoding (the size of "the affected part" is not specified) but not
+		// more, must agree with it wherever it is known, and must not fail where it decodes.
+		if out := judgePlaceholder(d, sh, spec, impl, desc); out != nil {
+			return *out
+		}
 
 	default:
 		counters.Add("writeouts_compared", 1)
@@ -1001,18 +1288,30 @@ func judge(c engine.Case) engine.Outcome {
 		}
 		if !impl.err {
 			iv, rv := impl.val, ref.val
-			how := "marks compared"
-			if wo.Marked {
-				iv, rv = unmarkDeep(iv), unmarkDeep(rv)
-				how = "marks ignored"
-			}
 			if !iv.RawEquals(rv) {
 				cond := "value-differs"
 				if unmarkDeep(iv).RawEquals(unmarkDeep(rv)) {
 					cond = "marks-differ"
 				}
-				return engine.Fail("c18."+cond+"."+sh.String(),
-					"Expand+Decode = %s\nwrite-out     = %s   (%s)\nwrite-out:\n%s\n%s", vfmt.V(impl.val), vfmt.V(ref.val), how, woText, desc())
+				if !wo.Marked {
+					return engine.Fail("c18."+cond+"."+sh.String(),
+						"Expand+Decode = %s\nwrite-out     = %s   (marks compared)\nwrite-out:\n%s\n%s", vfmt.V(impl.val), vfmt.V(ref.val), woText, desc())
+				}
+				// a for_each collection is marked: what is marked with what must be exactly what the
+				// write-out calls for (everything inside a block generated from a marked collection
+				// derives from it, nothing else does); the level of the structure a mark is attached to is free
+				if df := compareDerived(iv, rv, false); df != nil {
+					return engine.Fail("c18.marked-foreach."+df.kind+"."+markShape(d, wo),
+						"at %s the decoded value %s\nExpand+Decode = %s\nwrite-out     = %s   (blocks generated from a marked collection carry its marks: %v)\nwrite-out:\n%s\n%s",
+						df.path, df.msg, vfmt.V(impl.val), vfmt.V(ref.val), wo.MarkSets, woText, desc())
+				}
+				counters.Add("mark_placement_differs_only", 1)
+			}
+			if wo.Marked {
+				counters.Add("values_compared_with_exact_marks", 1)
+				if len(wo.MarkSets) > 1 {
+					counters.Add("values_compared_with_exact_marks_several_mark_sets", 1)
+				}
 			}
 			counters.Add("values_compared", 1)
 			counters.Add("values_compared_"+d.Fam, 1)
